@@ -212,6 +212,13 @@ def _run_history(root, L, rng, namer, opts, meta, cli=False):
                 if (rp == rsub or rp.startswith(rsub + os.sep)) and n['p'] != namer.path(sub):
                     aliases.append(n['p'])
     ev['aliases'] = aliases
+    # one physical Manifest file under two logical names (before or after)
+    byreal = {}
+    for m in s0['mfs'] + s1['mfs']:
+        lp = _unname(namer, m['p'])
+        rp = os.path.join(os.path.realpath(os.path.join(root, os.path.dirname(lp))), os.path.basename(lp))
+        byreal.setdefault(rp, set()).add(lp)
+    ev['mf_alias'] = any(len(v) > 1 for v in byreal.values())
     changed = diff_snap(snap0, snap2)
     nonmf = [p for p in changed if not is_manifest_name(p, owned)]
     written = [p for p in changed if is_manifest_name(p, owned) and p in snap2]
